@@ -171,5 +171,23 @@ theorem ptraceList_eq_mixture (rem : List Nat) :
     rw [mix, ptraceList_add, ptraceList_smul, ptraceList_smul, e0, e1]
     simp only [mixGo, h0', h1']
 
+/-! ### one-qubit results -/
+
+/-- a valid one-qubit tableau whose group contains `(-1)^s Z_0` is `|s⟩⟨s|` -/
+theorem rho_one_qubit_Z (t : Tab) (hn : t.n = 1) (hv : t.Valid) (hr : t.StabReal) (s : Bool) (hz : Grp t (Zq 0 s)) :
+    rho 1 (STab.ofTab t) = proj 1 (Zq 0 s) := by
+  have g := ofTab_good t hv
+  have i1 := rho_idem _ g
+  have h1 := rho_hermitian _ g
+  have t1 := rho_ofTab_trace t hv
+  have fix := grp_mul_rho t hv hr _ hz
+  have e : (STab.ofTab t).n = t.n := rfl
+  rw [e, hn] at i1 h1
+  rw [hn] at t1 fix
+  symm
+  apply projector_eq_of_le _ _ (proj_idem 1 _ rfl) (proj_hermitian 1 _ rfl) i1 h1 (proj_mul_of_fixed 1 _ _ fix)
+  rw [t1, proj_Zq_site 0 0 (Nat.le_refl 0) s, trace_insSite 0 (Nat.le_refl 0), Matrix.trace_one, card_bits]
+  cases s <;> simp [ketbra, Matrix.trace]
+
 end Hilbert
 end Graphiq
